@@ -397,4 +397,62 @@ theorem zero_of_flag (ws : List Nat) (i : Nat) (h : (ws.map (· == 0)).getD i fa
   | none => simp [hi] at h
   | some x => simpa [hi] using h
 
+/-! ### the round trip -/
+
+theorem pton6_ntop6 (a : Vector UInt8 16) : pton6 (ntop6 a) = some a := by
+  have hlen : (words6 a).length = 8 := rfl
+  have hws := words6_lt a
+  have hbytes := gbytes_words6 a
+  have hspec : runOk ((words6 a).map (· == 0)) = true := bestRun_spec _ _ _ _ _ _ _ _
+  unfold ntop6
+  unfold runOk at hspec
+  cases hb : bestRun ((words6 a).map (· == 0)) with
+  | none => rw [ntop6With_none _ hlen, pton6_full _ hws hlen, hbytes, vec16_toList]
+  | some r =>
+    obtain ⟨b, l⟩ := r
+    rw [hb] at hspec
+    simp only [Bool.and_eq_true, decide_eq_true_eq, List.all_eq_true, List.mem_range, Bool.or_eq_true,
+      Bool.not_eq_true', Bool.and_eq_false_imp] at hspec
+    obtain ⟨hmem, hall⟩ := hspec
+    obtain ⟨hl2, hbl⟩ := validRuns_bounds _ hmem
+    simp only at hl2 hbl
+    have hz : ∀ i, b ≤ i → i < b + l → (words6 a).getD i 1 = 0 := by
+      intro i h1 h2
+      apply zero_of_flag
+      rcases hall i (by omega) with h | h
+      · simp at h; omega
+      · exact h
+    have hrun := gbytes_zero_run (words6 a) b l (by rw [hlen]; exact hbl) hz
+    rw [hbytes] at hrun
+    by_cases ht : v4Tail (some (b, l)) ((words6 a).getD 5 0) = true
+    · have hb0 : b = 0 ∧ (l = 6 ∨ (l = 5 ∧ (words6 a).getD 5 0 = 0xffff)) := by
+        simpa [v4Tail] using ht
+      obtain ⟨rfl, h6 | ⟨rfl, h5⟩⟩ := hb0
+      · subst h6
+        rw [ntop6With_tail6 _ hlen, pton6_tail6]
+        have e : gbytes ((words6 a).drop (0 + 6)) = (#v[a[12], a[13], a[14], a[15]] : Vector UInt8 4).toList := by
+          simp [words6, gbytes, valBytes_word]
+        rw [e] at hrun
+        simp only [List.take_zero] at hrun
+        rw [show gbytes [] = [] from rfl, List.nil_append] at hrun
+        rw [hrun, vec16_toList]
+      · rw [ntop6With_tail5 _ hlen _ h5, pton6_tail5]
+        have e : gbytes ((words6 a).drop (0 + 5)) = valBytes 0xffff ++ (#v[a[12], a[13], a[14], a[15]] : Vector UInt8 4).toList := by
+          have : (words6 a).drop 5 = [(words6 a).getD 5 0, a[12].toNat * 256 + a[13].toNat, a[14].toNat * 256 + a[15].toNat] := by
+            simp [words6]
+          rw [Nat.zero_add, this, h5]
+          simp [gbytes, valBytes_word]
+        rw [e] at hrun
+        simp only [List.take_zero] at hrun
+        rw [show gbytes [] = [] from rfl, List.nil_append, ← List.append_assoc] at hrun
+        rw [hrun, vec16_toList]
+    · have ht' : v4Tail (some (b, l)) ((words6 a).getD 5 0) = false := by simpa using ht
+      rw [ntop6With_compress _ hlen b l hmem ht']
+      have hpl : ((words6 a).take b).length + ((words6 a).drop (b + l)).length < 8 := by
+        simp [hlen]; omega
+      rw [pton6_compressed _ _ (fun w hw => hws w (List.mem_of_mem_take hw)) (fun w hw => hws w (List.mem_of_mem_drop hw)) hpl]
+      have e : 16 - 2 * (((words6 a).take b).length + ((words6 a).drop (b + l)).length) = 2 * l := by
+        simp [hlen]; omega
+      rw [e, hrun, vec16_toList]
+
 end PV.SockAddr
